@@ -538,6 +538,7 @@ func (w *World) mergeAll(r *replica) {
 		err      string
 	}
 	var results []one
+	w.emit(&Event{Ev: "MergeAllBegin"}, r)
 	for res := range bug.MergeAll(r.repo, resolvers, "origin", mergeAuthor) {
 		o := one{id: res.Id, status: statusName(res.Status)}
 		if res.Err != nil {
@@ -577,11 +578,9 @@ func (w *World) mergeAll(r *replica) {
 		}
 		w.emit(ev, r)
 	}
-	if len(results) == 0 {
-		ev := &Event{Ev: "MergeNone"}
-		ev.Ref, ev.Trk, ev.Hub, ev.Clk, ev.New = full.Ref, full.Trk, full.Hub, full.Clk, []*Commit{}
-		w.emit(ev, r)
-	}
+	end := &Event{Ev: "MergeAllEnd"}
+	end.Ref, end.Trk, end.Hub, end.Clk, end.New = full.Ref, full.Trk, full.Hub, full.Clk, []*Commit{}
+	w.emit(end, r)
 }
 
 func (w *World) reopen(r *replica, loaders bool) {
